@@ -121,6 +121,7 @@ type World struct {
 	ByzVals       map[string]bool
 	lastKeyMsg    map[string]*mhub2types.MsgDelegateKeys
 	keyModels     map[string]*keyModel
+	extKeyByAddr  map[[20]byte]*ecdsa.PrivateKey
 	BlockEvents   []abci.Event // begin+end block events of the current block (replica 0)
 }
 
@@ -176,7 +177,7 @@ func holderValue(tier int) sdk.Int {
 func NewWorld(cfg Config, oracles []Oracle, logOn bool) (*World, error) {
 	hub.Setup()
 	w := &World{Cfg: cfg, Eth: map[string]*ext.Eth{}, Extra: map[string]*hub.Account{}, Stalled: map[string]bool{}, extMsAcc: map[string]uint64{},
-		Oracles: oracles, LogOn: logOn, KeysSet: map[string]bool{}, ByzVals: map[string]bool{},
+		Oracles: oracles, LogOn: logOn, KeysSet: map[string]bool{}, ByzVals: map[string]bool{}, extKeyByAddr: map[[20]byte]*ecdsa.PrivateKey{},
 		St: NewStats(), GenesisSupply: map[string]sdk.Int{}, Liquidity0: map[string]*big.Rat{}, ColdExec: map[string]*big.Rat{}}
 	w.Now = time.Unix(1_700_000_000, 0).UTC()
 
@@ -188,6 +189,9 @@ func NewWorld(cfg Config, oracles []Oracle, logOn bool) (*World, error) {
 			v.ExtKey[ch] = ext.DetEthKey(fmt.Sprintf("val%d-%s", i, ch))
 		}
 		w.Vals = append(w.Vals, v)
+		for _, ch := range Chains {
+			w.extKeyByAddr[v.ExtAddr(ch)] = v.ExtKey[ch]
+		}
 	}
 	for i := 0; i < cfg.NUsers; i++ {
 		w.Users = append(w.Users, &User{Idx: i, Acc: hub.NewAccount(fmt.Sprintf("user%d", i)), ExtKey: ext.DetEthKey(fmt.Sprintf("user%d", i))})
